@@ -487,3 +487,47 @@ Example C02_ex_fresh_vars :
   vname 3 = bs "templ_7745c5c3_Var3" /\ Gen.vid (gen_state (bs "t.templ") lit_file) = 3 /\
   is_varline (bs "var templ_7745c5c3_Var3 string") = true /\ is_varline (bs "templ_7745c5c3_Err = nil") = false.
 Proof. repeat split; vm_compute; reflexivity. Qed.
+
+(* ================= static markup of template files that are NOT valid UTF-8 ================= *)
+From V Require model.Quote model.QuoteGo.
+From V Require Import proofs.IrFragQuoteProof.
+
+(* static_bytes_any.  The parser takes a template as bytes; a Latin-1 file, a lone continuation byte, a truncated, overlong or
+   surrogate form are accepted by `templ generate`, and what the template denotes is those bytes.  The fragment printer
+   (model/IrFragPrint.v: plit, text-tied to generator.Generate on every run, also on such files) writes a static run s as the
+   Go literal body [fquote s] = strconv.Quote of model/Quote.v.  For EVERY byte string s: the literal reads back (strconv.Unquote -
+   the value the Go compiler gives it) as exactly s, holds no raw newline, and scans as one literal. *)
+Theorem C02_static_literal_reads_back : forall s : bytes,
+  Quote.unquote (fquote s) = Some s /\ Quote.scan_ok (fquote s) = true /\ Quote.no_byte x0a (fquote s) = true.
+Proof. exact fquote_reads_back. Qed.
+Print Assumptions C02_static_literal_reads_back.
+
+(* fquote takes every non-ASCII code point as printable (strconv.IsPrint is an oracle).  It IS strconv.Quote for any IsPrint table
+   that is right on ASCII and holds of the WELL-FORMED non-ASCII characters of s, whatever ill-formed bytes stand between them -
+   in particular for Go's own table (gen/Tables16.v); and on well-formed UTF-8 it is Gen.qesc, the quoting of the whole-generator
+   model (whose literal theorems C16_generated_literals_roundtrip / C16_qesc_is_quote carry the guard [printable], which
+   implies well-formed UTF-8: Gen.qesc hands an ill-formed byte through as it is). *)
+Theorem C02_static_literal_is_strconv_quote :
+  (forall ip : N -> bool, ascii_print_ok ip -> forall s : bytes, wf_printable ip s = true -> Quote.quote ip s = fquote s) /\
+  (forall s : bytes, wf_printable QuoteGo.go_is_print s = true -> QuoteGo.go_quote s = fquote s) /\
+  (forall s : bytes, Quote.valid_utf8 s = true -> fquote s = Gen.qesc s).
+Proof. exact (conj fquote_is_quote (conj fquote_is_go_quote fquote_wellformed)). Qed.
+Print Assumptions C02_static_literal_is_strconv_quote.
+
+(* The generator quotes each piece on its own (escapeQuotes per text node, attribute value, doctype; format-string text around
+   them) and RangeWriter concatenates the quoted texts; the fragment generator merges the pieces (coalesce) and the printer quotes
+   the merged run.  Same text whenever every boundary has a byte below 0x80 on one side (static pieces are delimited by ASCII
+   markup; a text node is followed by markup, a space, or a statement that closes the literal). *)
+Theorem C02_quote_merged_pieces : forall (ip : N -> bool) (ps : list bytes),
+  chain_ok ps = true -> Quote.quote ip (concat ps) = concat (map (Quote.quote ip) ps).
+Proof. exact quote_concat. Qed.
+Print Assumptions C02_quote_merged_pieces.
+
+(* why the \x escapes are needed: the Latin-1 byte E9 handed to the Go file as it is reads back as U+FFFD (EF BF BD), not as E9;
+   and the boundary condition of C02_quote_merged_pieces cannot be dropped *)
+Example C02_ex_raw_byte_not_preserved :
+  Gen.qesc [xe9] = [xe9] /\ Quote.unquote (Gen.qesc [xe9]) = Some [xef; xbf; xbd] /\ fquote [xe9] = bs "\xe9" /\ Quote.unquote (fquote [xe9]) = Some [xe9].
+Proof. exact raw_byte_not_preserved. Qed.
+Example C02_ex_quote_split_sequence :
+  Quote.quote frag_is_print ([xc3] ++ [xa9]) = [xc3; xa9] /\ Quote.quote frag_is_print [xc3] ++ Quote.quote frag_is_print [xa9] = bs "\xc3\xa9".
+Proof. exact quote_split_sequence. Qed.
